@@ -4,6 +4,7 @@ import GoBatcher.Driver.Buffer
 import GoBatcher.Driver.HistMon
 import GoBatcher.Driver.Setters
 import GoBatcher.Driver.LeaseMgr
+import GoBatcher.Driver.LeaseMon
 open GoBatcher.Driver
 
 structure Tot where
@@ -21,6 +22,7 @@ def handle (line : String) : Option (Option String × List (String × String)) :
   else if line.startsWith "hist " then some (checkHist inp obs)
   else if line.startsWith "setters " then some (checkSetters inp obs)
   else if line.startsWith "leasemgr " then some (checkLeaseMgr inp obs)
+  else if line.startsWith "lease " then some (checkLease inp obs)
   else none
 
 partial def loop (h : IO.FS.Stream) (t : Tot) (n : Nat) : IO Tot := do
